@@ -125,4 +125,32 @@ example : expand [] (Str.ofString "$?{NOPE}/z") = .skip := by decide
 example : GoodPiece 58 (Str.ofString "/opt/p/1.0/bin") := by unfold GoodPiece; decide
 
 
+/-- MANPATH style: a leading and/or trailing delimiter written around the value asks for an empty
+first / last element; on well-formed values the new value of the variable is exactly the list
+result with the requested empty elements re-attached (and never doubled). -/
+theorem manpath_flags (c : Nat) (hc : c ≠ 36) (append pre app : Bool) (var v : Str)
+    (oldl : List Str) (env : Env)
+    (hold : ∀ e ∈ oldl, GoodPiece c e) (hv : GoodPiece c v)
+    (henv : (env.get var).getD [] = join [c] oldl) :
+    envPrepend append true var (flagged c pre app v) [c] env
+      = .ok (env.set var (flagged c pre app (join [c] (applyL append true [v] oldl)))) :=
+  envPrepend_lifts_flags c hc append pre app var v oldl env hold hv henv
+
+/-- ... so the value starts (ends) with the delimiter iff a leading (trailing) one was written. -/
+theorem manpath_leading_iff (c : Nat) (pre app : Bool) (l : List Str) (hne : l ≠ [])
+    (h : ∀ e ∈ l, GoodPiece c e) :
+    startsWith (flagged c pre app (join [c] l)) [c] = pre := by
+  cases pre
+  · have hsw := startsWith_join_good c l hne h
+    obtain ⟨p, x, hp, _⟩ := getLast_join_good c l hne h
+    cases hJ : join [c] l with
+    | nil => rw [hJ] at hp; exact absurd hp (by simp)
+    | cons y ys =>
+      rw [hJ] at hsw
+      have hy : (c == y) = false := by simpa [startsWith, List.isPrefixOf] using hsw
+      simp [flagged, startsWith, List.isPrefixOf, hy]
+  · simp [flagged, startsWith, List.isPrefixOf]
+
+example : flagged 58 true false (Str.ofString "/usr/man") = Str.ofString ":/usr/man" := by decide
+
 end EupsModel.C12
